@@ -494,3 +494,42 @@ func g4(c *fw.Ctx) {
 		}
 	}
 }
+
+// ---------------------------------------------------------------------------
+// exported pieces of G1 for C13 (same binding forms and use sites)
+
+// ShadowForm is one way of binding a name; Build places body (statements that
+// compute `r`) in the scope of the binding of name n.
+type ShadowForm struct {
+	Name   string
+	Hidden bool // the binding is not in scope at the use site
+	Build  func(n, body string) (src string, args []ugo.Object, globals ugo.Map)
+}
+
+// ShadowForms returns the binding forms of G1.
+func ShadowForms() []ShadowForm {
+	var out []ShadowForm
+	for _, f := range forms() {
+		f := f
+		out = append(out, ShadowForm{Name: f.name, Hidden: f.hidden, Build: func(n, body string) (string, []ugo.Object, ugo.Map) {
+			p := f.build(n, body)
+			return p.src, p.args, p.globals
+		}})
+	}
+	return out
+}
+
+// UseSite wraps a use expression into statements assigning `r`.
+type UseSite struct {
+	Name string
+	Make func(e string) string
+}
+
+// UseSites returns the use sites of G1.
+func UseSites() []UseSite {
+	var out []UseSite
+	for _, s := range sites {
+		out = append(out, UseSite{s.name, s.mk})
+	}
+	return out
+}
